@@ -158,7 +158,7 @@ func runFaults(a *args, r *rand.Rand, root string, i int) {
 	// (a) transient faults: up to 3, placed on random jobs/attempts of a cold production run
 	prog := randProg(r)
 	seg := []uint64{2, 3, 5}[r.Intn(3)]
-	a.emit(map[string]any{"ev": "prog", "prog": prog, "seg": seg})
+	a.emit(map[string]any{"ev": "prog", "prog": prog, "seg": seg, "scenario": i})
 	for k := 0; k < 2; k++ {
 		env := newSysEnv(filepath.Join(root, fmt.Sprintf("f%d-%d", i, k)), prog)
 		os.MkdirAll(env.dir, 0755)
